@@ -533,12 +533,15 @@ impl C10 {
             out.tag(format!("{stage}raw:junk-warning"));
         }
         if i != m {
-            out.fail(
-                Kind::ImplVsModel,
-                &format!("{stage}raw"),
-                format!("raw differs: impl {i_class} model {m_class}"),
-                format!("impl:  {i}\nmodel: {m}"),
-            );
+            // C10-k: the reader as it stood rejected ne = 256 (`s.ne > 255`) although its own
+            // documentation, TFtoPL.2014.21 and PLtoTF allow 256 recipes; the model describes
+            // the repaired test (`s.ne > 256`). Own signature so that it is tracked by itself.
+            let sig = if i.starts_with("err manyext") && i.split(' ').nth(3) == Some("256") {
+                "raw differs: reader rejects ne=256".to_string()
+            } else {
+                format!("raw differs: impl {i_class} model {m_class}")
+            };
+            out.fail(Kind::ImplVsModel, &format!("{stage}raw"), sig, format!("impl:  {i}\nmodel: {m}"));
         }
         if let Some(layout) = i.strip_prefix("ok ") {
             // S on the real layout, computed by Lean
@@ -748,7 +751,18 @@ impl C10 {
                 format!("{} bytes, header {}\nreader model says: {m}", bytes.len(), hex_or_dash(&bytes[..n])),
             );
         }
-        // … and by the real reader, and tftopl converts it.
+        // … and by the real reader (I vs S proper: this is the sentence of the property) …
+        match caught(|| real_raw(&bytes)) {
+            Ok(i) if i.starts_with("ok") => {}
+            Ok(i) => out.fail(
+                Kind::ImplVsSpec,
+                &format!("{stage}pltotf"),
+                format!("pltotf output rejected by the reader: {}", class_of(&i)),
+                format!("{} bytes, header {}\nreal reader says: {i}", bytes.len(), hex_or_dash(&bytes[..n])),
+            ),
+            Err(_) => {} // reported by check_bytes below
+        }
+        // … and tftopl converts it.
         let st = format!("{stage}pltotf>");
         let before = out.failures.len();
         let pl = self.check_bytes(&bytes, drv, out, &st, false);
@@ -1029,7 +1043,7 @@ impl Property for C10 {
          (16-byte, 24-byte, minimal consistent 48-byte, a 72-byte consistent file with junk, a 131 068-byte file with lf=32767: stride 8 there except lf and nw), hc: every word of two consistent tables swept with lf and the file length following (0..128 dense in quick, 0..1024 in thorough, sparse to 2^16); then random consistent size tables with random bodies and random 1-3-word damage; \
          t: every corpus .tfm under crates/tfm*/ — all truncation lengths that are multiples of 4 around every sub-file boundary plus random ones, random single-byte and header-word mutations; \
          p: every corpus .plst/.pl — random token mutations (paren deletion/insertion, out-of-range and huge numbers, keyword swaps, undeclared characters in labels, cuts, deep nesting, repeats); \
-         pt: random small property lists from the grammar with deliberate violations. Every tftopl output is fed to pltotf and every pltotf output to the reader and tftopl. \
+         pt: random small property lists from the grammar with deliberate violations; pg: property lists built from counts so that every sub-file count (nw, nh, nd, ni, ne, np, lh, nl, nk, redirect words, bc/ec) sits at and just beyond its format limit, alone, all together, with random combinations, and with lig/kern tables that push lf to and past 2^15 words. Every tftopl output is fed to pltotf and every pltotf output to the reader and tftopl. \
          Non-trivial = a byte case of at least 2 bytes, or a text case containing at least one '('; distinct = distinct case string."
             .into()
     }
@@ -1079,6 +1093,15 @@ impl Property for C10 {
             }
             v.push(format!("pt {t}"));
         }
+        // C10-k: 256 VARCHARs -> ne = 256; C10-l: lf beyond 32767 words from distinct kerns /
+        // long lig tables; C10-m: the LigTableIsTooBig warning (no offset) breaks the sort
+        v.push("pg v=256".into());
+        v.push("pg v=256 big=1 w=256 h=16 d=16 i=64".into());
+        v.push("pg k=16400".into());
+        v.push("pg k=20000".into());
+        v.push("pg l=32600".into());
+        v.push("pg l=32510 kr=10".into());
+        v.push("pt (LIGTABLE (LABEL C a) (KRN C a R 20.0) (STOP))".into());
         // nesting depth: in process up to NEST_LIMIT, in a child process beyond
         v.push("pn 1000 ".into());
         v.push("pn 20000 (CHARACTER C A ".into());
@@ -1272,6 +1295,79 @@ impl Property for C10 {
         let n_pt = if th { 100_000 } else { 8_000 };
         for _ in 0..n_pt {
             v.push(format!("pt {}", esc(&gen_pl(&mut r))));
+        }
+
+        // ---- pg: sub-file counts at and just beyond each format limit, from PL text --------
+        {
+            let mut r = rng.fork();
+            let limits: &[(&str, &[usize])] = &[
+                ("w", &[1, 254, 255, 256]),
+                ("h", &[1, 14, 15, 16, 17, 40, 256]),
+                ("d", &[1, 14, 15, 16, 17, 40, 256]),
+                ("i", &[1, 62, 63, 64, 65, 100, 256]),
+                ("v", &[1, 254, 255, 256]),
+                ("p", &[1, 7, 22, 30, 253, 254, 255]),
+                ("hd", &[17, 18, 19, 100, 254, 255]),
+                ("k", &[1, 255, 256, 257, 5000]),
+                ("kr", &[1, 255, 256, 257, 5000]),
+                ("l", &[1, 255, 256, 257, 5000]),
+                ("lab", &[1, 2, 255, 256]),
+                ("bc", &[0, 1, 255]),
+                ("ec", &[0, 254, 255]),
+            ];
+            // each limit alone, small and big values
+            for (k, vals) in limits {
+                for x in *vals {
+                    v.push(format!("pg {k}={x}"));
+                    v.push(format!("pg {k}={x} big=1"));
+                }
+            }
+            // every table at its limit together, with and without the boundary character
+            v.push("pg w=256 h=16 d=16 i=64 v=256 p=254 hd=255 bc=0 ec=255".into());
+            v.push("pg w=256 h=256 d=256 i=256 v=256 p=254 hd=255 big=1 b=1".into());
+            v.push("pg w=256 h=40 d=40 i=100 lab=256 p=254 hd=255 b=1 l=300".into());
+            // the lig/kern table against the 2^15 words of the whole file: around the limits
+            // 32510 (instructions), 31129 (instructions + kerns), and what is left of lf
+            let mut bigs: Vec<String> = vec![];
+            for x in [16300usize, 16400, 20000, 31128, 31129, 31130, 32509, 32510, 32511, 33000] {
+                bigs.push(format!("pg k={x}"));
+                bigs.push(format!("pg l={x}"));
+                bigs.push(format!("pg kr={x}"));
+            }
+            for (k, l) in [(15000usize, 16128usize), (15000, 16129), (15000, 16130), (100, 32409), (100, 32410), (5000, 26000), (8000, 15128)] {
+                bigs.push(format!("pg k={k} l={l}"));
+                bigs.push(format!("pg k={k} l={l} w=256 h=40 d=40 i=100 v=255 p=254 hd=255 b=1"));
+                bigs.push(format!("pg k={k} l={l} w=256 h=40 d=40 i=100 lab=256 p=254 hd=255 b=1 big=1"));
+            }
+            let n_big = if th { bigs.len() } else { 24 };
+            // quick: the first of each family plus a random selection
+            for (j, b) in bigs.iter().enumerate() {
+                if th || j < 12 || r.chance(n_big as u64, bigs.len() as u64 * 2) {
+                    v.push(b.clone());
+                }
+            }
+            // random combinations of limit values
+            let n_rand = if th { 1500 } else { 150 };
+            for _ in 0..n_rand {
+                let mut parts = vec![];
+                for (k, vals) in limits {
+                    if r.chance(1, 3) {
+                        let x = *r.pick(vals);
+                        let x = if r.chance(1, 4) { (x as i64 + r.range(-2, 2)).max(0) as usize } else { x };
+                        parts.push(format!("{k}={x}"));
+                    }
+                }
+                if r.chance(1, 3) {
+                    parts.push("big=1".into());
+                }
+                if r.chance(1, 3) {
+                    parts.push("b=1".into());
+                }
+                if r.chance(1, if th { 10 } else { 40 }) {
+                    parts.push(format!("l={}", r.range(25000, 32600)));
+                }
+                v.push(format!("pg {}", parts.join(" ")));
+            }
         }
 
         // ---- p: corpus property lists -----------------------------------------------------
